@@ -199,6 +199,11 @@ def h_index_list(a: int, b: int, c: int, i: int, j: int, n: int) -> bool:
     if H.skip(locals()): return True
     vl = H.take([a, b, c], n)
     v = Vector(vl, name='nm')
+    if -n <= i < n:
+        # a one-element index list is still a list selection (also on str elements, which are themselves indexable)
+        for vec, src in ((v, vl), (Vector(['ann', 'bob', 'cy'][:n]), ['ann', 'bob', 'cy'][:n])):
+            one = vec[[i]] if H.cfg('form') != 'vector' else vec[Vector([i])]
+            if not isinstance(one, Vector) or not H.same_list(list(one), [src[i]]): return H.fail('v[[%r]] on %r = %r, expected %r' % (i, src, list(one) if isinstance(one, Vector) else one, [src[i]]))
     key = Vector([i, j]) if H.cfg('form') == 'vector' else [i, j]
     try:
         want = [vl[i], vl[j]]; werr = False
